@@ -155,8 +155,10 @@ type symPtr struct {
 const maxIteCells = 512
 
 func symIndexGuard(n int, idx sym) {
-	w, signed := kindInfo(idx.k)
-	_ = signed
+	w, _ := kindInfo(idx.k)
+	if n > 0 && termUB(idx.t) < uint64(n) {
+		return // in range for syntactic reasons: no solver call
+	}
 	inb := tCmp("bvult", idx.t, tConst(w, uint64(n)))
 	if !CurPath.DecideBool(inb) {
 		panic(rtError(fmt.Sprintf("index out of range [symbolic] with length %d", n)))
@@ -187,6 +189,22 @@ func iteRead(elems []value, idx *term, w int) value {
 			return elems[asInt64(c)]
 		}
 		k = ek
+	}
+	// table of constants: one lookup node (composes and folds)
+	allConst := true
+	for _, e := range elems {
+		if isSym(e) {
+			allConst = false
+			break
+		}
+	}
+	if allConst {
+		tab := make([]uint64, n)
+		for i, e := range elems {
+			tab[i] = toSym(e).t.val
+		}
+		rw, _ := kindInfo(k)
+		return fromTerm(tLut(tab, rw, idx), k)
 	}
 	res := toSym(elems[n-1]).t
 	for i := n - 2; i >= 0; i-- {
